@@ -22,6 +22,8 @@ def _select(tier):
         if name.startswith(("iso_", "sdmx_", "repr_")) and name.count("_") == 2:
             k, w = name.split("_")[1:]
             return (k in ("q", "m") and w in ("y2000", "y1000")) or (k in ("y", "h") and w == "y0100") or (k == "y" and w == "y9999")
+        if name.startswith("position_"):
+            return name.endswith(("_m_c2000", "_m_c1900", "_m_y2024", "_y_c2000")) and ("_end_" in name or name.endswith("_m_c2000"))
         if name.startswith("strings_d_"):
             return name.endswith(("leap2024", "y0999end", "first"))
         if name.startswith("refreq_"):
@@ -45,7 +47,7 @@ def main(run):
     run.bounds["ints"] = ("ymd / python-date / year-segment round trips: all periods of years 1..9998, every position; all ordinals for daily; "
                           "string legs (ISO, SDMX with auto-detection, repr) on 2-year windows at the decade/century/millennium boundaries "
                           "0009-0011, 0099-0101, 0999-1001, 1999-2001, 9998-9999 and daily windows incl. a leap day; integer periods -12..60; "
-                          "refrequent: every ordered pair of calendar frequencies x 3 positions over years 1..9997 (2024-01-15..2024-03-14 for a daily source, 2019-2021 for a daily target)")
+                          "true first/last day of each period (day before start / after end falls in the neighbouring period) for monthly and yearly periods on 3-year windows around 1900, 2000, 2400 and 2024 (half-yearly/quarterly period ends are fixed table entries, covered by C09 tiling); refrequent: every ordered pair of calendar frequencies x 3 positions over years 1..9997 (2024-01-15..2024-03-14 for a daily source, 2019-2021 for a daily target)")
     run.stubs += ["datetime.date and calendar.monthrange inside irispie.dates replaced by a loop-free integer Gregorian calendar "
                   "(xh/calstub.py), validated against the real modules on this run; counterexamples are replayed with the real datetime"]
     run.assumptions += ["CrossHair 'Confirmed over all paths' is taken as exhaustive over the precondition's bound",
